@@ -7,20 +7,21 @@ fn usage() -> ! {
     std::process::exit(2)
 }
 
-fn dispatch_check(id: &str, tier: Tier, seed: u64) -> Report {
-    match id {
-        "C14" => check::<props::c14::C14>(tier, seed),
-        "C17" => check::<props::c17::C17>(tier, seed),
-        _ => { eprintln!("unknown property {id}"); Report { exit: 2 } }
-    }
+macro_rules! props {
+    ($($id:literal => $t:ty),* $(,)?) => {
+        fn dispatch_check(id: &str, tier: Tier, seed: u64) -> Report {
+            match id { $($id => check::<$t>(tier, seed),)* _ => { eprintln!("unknown property {id}"); Report { exit: 2 } } }
+        }
+        fn dispatch_replay(id: &str, path: &PathBuf, tier: Tier) -> Report {
+            match id { $($id => replay::<$t>(path, tier),)* _ => { eprintln!("unknown property {id}"); Report { exit: 2 } } }
+        }
+    };
 }
 
-fn dispatch_replay(id: &str, path: &PathBuf, tier: Tier) -> Report {
-    match id {
-        "C14" => replay::<props::c14::C14>(path, tier),
-        "C17" => replay::<props::c17::C17>(path, tier),
-        _ => { eprintln!("unknown property {id}"); Report { exit: 2 } }
-    }
+props! {
+    "C14" => props::c14::C14,
+    "C15" => props::c15::C15,
+    "C17" => props::c17::C17,
 }
 
 fn main() {
